@@ -340,13 +340,13 @@ def rt_early(mo, io):
         return False
     for k, d in a["d"].items():
         e = b["d"].get(k)
-        if e and d["ph"] == "t" and e["ph"] == "c" and e["att"] == d["att"] + 1:
-            return True
+        if e and d["ph"] == "t" and e["att"] > d["att"]:
+            return True     # the timer the model still shows armed has fired in real time (and things went on from there)
         if e and d["ph"] == "t" and e["ph"] == "-" and e["att"] == d["att"] and e["pipe"] == "-":
             return True     # expired; its callback is about to run (the driver waited 40 ms for it in vain)
     for k, l in a["l"].items():
         e = b["l"].get(k)
-        if e and l["ph"] == "t" and e["ph"] == "a":
+        if e and l["ph"] == "t" and (e["ph"] == "a" or e["att"] > l["att"]):
             return True
     return False
 
@@ -489,6 +489,16 @@ def run(tier, seed, replay=None):
         p = rep.replay_file("wb_pipeev_build.txt", err)
         rep.violation(p, "C14 driver does not build against the current tree (hooks H2q/H4 missing?)", nofail=True)
         return rep.finish()
+    def impl_path():
+        # the scratch build directory may be evicted by concurrent builds of other checks: rebuild on demand
+        nonlocal impl
+        if not os.path.exists(impl):
+            b2, _ = nng_build("asan")
+            if b2 is not None:
+                i2, _ = wb_build(b2, "wb_pipeev.c")
+                if i2 is not None:
+                    impl = i2
+        return impl
     model = model_bin("modeld_c14")
     rc, o, e = run_prog(model, "", args=["--flags"])
     flags = o[0] if o else "?"
@@ -497,7 +507,7 @@ def run(tier, seed, replay=None):
     t_sections = {"prelude_s": round(time.time() - rep.t0, 1)}
 
     # ---- 1. scripted cases: implementation vs model vs oracle
-    n = 450 if tier == "quick" else 6000
+    n = 450 if tier == "quick" else 14000
     if replay:
         cases = [[l.strip() for l in open(replay) if l.strip() and not l.startswith("#")]]
     else:
@@ -506,7 +516,7 @@ def run(tier, seed, replay=None):
     hist = {}
     for b0 in range(0, len(cases), 50):
         batch = cases[b0:b0 + 50]
-        iout, crash = run_cases(impl, batch, timeout=900)
+        iout, crash = run_cases(impl_path(), batch, timeout=900)
         mout, _ = run_cases(model, batch, timeout=900)
         if crash:
             ci, rc, errtxt = crash
@@ -520,7 +530,7 @@ def run(tier, seed, replay=None):
             bad = oracle(case, iout[ci])
             if bad:
                 k, key, text = bad
-                small = ddmin(case, lambda c: oracle(c, run_cases(impl, [c])[0][0]) is not None, max_iter=60)
+                small = ddmin(case, lambda c: oracle(c, run_cases(impl_path(), [c])[0][0]) is not None, max_iter=60)
                 p = rep.replay_file("spec_%d.case" % (b0 + ci), "# %s at op %d (%s)\n" % (text, k, case[k] if k < len(case) else "?") + "\n".join(small) + "\n")
                 rep.violation(p, "C14: %s (op %d: %s)" % (text, k, case[k] if k < len(case) else "?"), key=key)
                 continue
@@ -544,7 +554,7 @@ def run(tier, seed, replay=None):
     t_sections["scripted_s"] = round(time.time() - rep.t0 - t_sections["prelude_s"], 1)
     # ---- 2. the two dialer findings, directed (reported under their keys while the tree has them)
     if not replay:
-        iout, crash = run_cases(impl, [case_midchange()], timeout=120)
+        iout, crash = run_cases(impl_path(), [case_midchange()], timeout=120)
         if crash:
             p = rep.replay_file("midchange_crash.case", "\n".join(case_midchange()) + "\n# " + crash[2][-1500:].replace("\n", "\n# ") + "\n")
             rep.violation(p, "C14 driver crashed on the mid-back-off case: %s" % san_summary(crash[2]))
@@ -556,7 +566,7 @@ def run(tier, seed, replay=None):
             elif not fixmax:
                 p = rep.replay_file("midchange_model.txt", "Gen/Consts.v says the pinned form of nni_dialer_setopt(RECONNMAXT), the library did not show the long delays\n" + "\n".join(iout[0]))
                 rep.violation(p, "flag C14_RECONNMAX_RESETS = false but the implementation bounds the delay after RECONNMAXT was lowered", nofail=True)
-        iout, crash = run_cases(impl, [case_overflow()], timeout=120)
+        iout, crash = run_cases(impl_path(), [case_overflow()], timeout=120)
         if crash and "signed integer overflow" in crash[2] and "socket.c" in crash[2]:
             p = rep.replay_file("backoff_overflow.case", "# %s\n" % san_summary(crash[2]) + "\n".join(case_overflow()) + "\n")
             rep.violation(p, "dialer_timer_start_locked: d_currtime *= 2 overflows int32 with RECONNMINT >= 2^30 ms: %s" % san_summary(crash[2]), key=KEY_OVF)
@@ -572,22 +582,23 @@ def run(tier, seed, replay=None):
     # ---- 3. real transports, raw peers
     scen = []
     if not replay:
-        nseed = 10 if tier == "quick" else 60
+        nseed = 10 if tier == "quick" else 120
         for tr in ("tcp", "ipc", "inproc"):
             for i in range(nseed):
                 scen.append(("real", [tr, seed * 1000 + i, 160 if tier == "quick" else 400]))
         cfgs = [(0, 0), (0, 400), (60, 0), (100, 1000), (300, 100), (1000, 0), (25, 25), (1, 3), (2000, 500)]
         for tr in ("tcp", "ipc"):
             for j, (mn, mx) in enumerate(cfgs):
-                for i in range(2 if tier == "quick" else 8):
+                for i in range(2 if tier == "quick" else 16):
                     scen.append(("redial", [tr, seed * 1000 + 100 * j + i, mn, mx, 14 if tier == "quick" else 40]))
-            for i in range(3 if tier == "quick" else 16):
+            for i in range(3 if tier == "quick" else 30):
                 scen.append(("hostile", [tr, seed * 1000 + i, 14 if tier == "quick" else 40]))
     sc_hist = {"real": 0, "redial": 0, "hostile": 0}
     sc_events = 0
     sc_rounds = 0
     with concurrent.futures.ThreadPoolExecutor(max_workers=5) as ex:
         # thorough: every second run with delay injection
+        impl_path()
         futs = {ex.submit(run_scen, impl, [k] + a, 300, (a[1] if (tier != "quick" and idx % 2) else 0)): (k, a)
                 for idx, (k, a) in enumerate(scen)}
         for f in concurrent.futures.as_completed(futs):
